@@ -1,7 +1,7 @@
 SPECIFICATION Spec
 CONSTANTS
   NRec = 2
-  MaxCuts = 11
+  MaxCuts = 4
   BugH4 = TRUE
 INVARIANTS TypeOK RestoreExactKF
 CHECK_DEADLOCK FALSE
